@@ -39,6 +39,20 @@ func f2(i int64) func([]int64) []int64 {
 	}
 }
 
+// family 3: values of interface type, the nil interface value being the empty list:
+// f_i(nil) = [i], f_i(l) = append(l, i).  A pipe that mishandles nil interface values shows here.
+func f3(i int64) func(any) any {
+	return func(x any) any {
+		if x == nil {
+			return []int64{i}
+		}
+		l := x.([]int64)
+		r := make([]int64, 0, len(l)+1)
+		r = append(r, l...)
+		return append(r, i)
+	}
+}
+
 func run01(n, fam int, x int64) int64 {
 	switch n {
 	case 2:
@@ -127,6 +141,55 @@ func run2(n int, l []int64) []int64 {
 	panic("arity")
 }
 
+func run3(n int, l any) (res []int64) {
+	defer func() {
+		if recover() != nil {
+			res = []int64{-999}
+		}
+	}()
+	switch n {
+	case 2:
+		return pipe.Pipe(f3(1), f3(2))(l).([]int64)
+	case 3:
+		return pipe.Pipe3(f3(1), f3(2), f3(3))(l).([]int64)
+	case 4:
+		return pipe.Pipe4(f3(1), f3(2), f3(3), f3(4))(l).([]int64)
+	case 5:
+		return pipe.Pipe5(f3(1), f3(2), f3(3), f3(4), f3(5))(l).([]int64)
+	case 6:
+		return pipe.Pipe6(f3(1), f3(2), f3(3), f3(4), f3(5), f3(6))(l).([]int64)
+	case 7:
+		return pipe.Pipe7(f3(1), f3(2), f3(3), f3(4), f3(5), f3(6), f3(7))(l).([]int64)
+	case 8:
+		return pipe.Pipe8(f3(1), f3(2), f3(3), f3(4), f3(5), f3(6), f3(7), f3(8))(l).([]int64)
+	case 9:
+		return pipe.Pipe9(f3(1), f3(2), f3(3), f3(4), f3(5), f3(6), f3(7), f3(8), f3(9))(l).([]int64)
+	case 10:
+		return pipe.Pipe10(f3(1), f3(2), f3(3), f3(4), f3(5), f3(6), f3(7), f3(8), f3(9), f3(10))(l).([]int64)
+	case 11:
+		return pipe.Pipe11(f3(1), f3(2), f3(3), f3(4), f3(5), f3(6), f3(7), f3(8), f3(9), f3(10), f3(11))(l).([]int64)
+	case 12:
+		return pipe.Pipe12(f3(1), f3(2), f3(3), f3(4), f3(5), f3(6), f3(7), f3(8), f3(9), f3(10), f3(11), f3(12))(l).([]int64)
+	case 13:
+		return pipe.Pipe13(f3(1), f3(2), f3(3), f3(4), f3(5), f3(6), f3(7), f3(8), f3(9), f3(10), f3(11), f3(12), f3(13))(l).([]int64)
+	case 14:
+		return pipe.Pipe14(f3(1), f3(2), f3(3), f3(4), f3(5), f3(6), f3(7), f3(8), f3(9), f3(10), f3(11), f3(12), f3(13), f3(14))(l).([]int64)
+	case 15:
+		return pipe.Pipe15(f3(1), f3(2), f3(3), f3(4), f3(5), f3(6), f3(7), f3(8), f3(9), f3(10), f3(11), f3(12), f3(13), f3(14), f3(15))(l).([]int64)
+	case 16:
+		return pipe.Pipe16(f3(1), f3(2), f3(3), f3(4), f3(5), f3(6), f3(7), f3(8), f3(9), f3(10), f3(11), f3(12), f3(13), f3(14), f3(15), f3(16))(l).([]int64)
+	case 17:
+		return pipe.Pipe17(f3(1), f3(2), f3(3), f3(4), f3(5), f3(6), f3(7), f3(8), f3(9), f3(10), f3(11), f3(12), f3(13), f3(14), f3(15), f3(16), f3(17))(l).([]int64)
+	case 18:
+		return pipe.Pipe18(f3(1), f3(2), f3(3), f3(4), f3(5), f3(6), f3(7), f3(8), f3(9), f3(10), f3(11), f3(12), f3(13), f3(14), f3(15), f3(16), f3(17), f3(18))(l).([]int64)
+	case 19:
+		return pipe.Pipe19(f3(1), f3(2), f3(3), f3(4), f3(5), f3(6), f3(7), f3(8), f3(9), f3(10), f3(11), f3(12), f3(13), f3(14), f3(15), f3(16), f3(17), f3(18), f3(19))(l).([]int64)
+	case 20:
+		return pipe.Pipe20(f3(1), f3(2), f3(3), f3(4), f3(5), f3(6), f3(7), f3(8), f3(9), f3(10), f3(11), f3(12), f3(13), f3(14), f3(15), f3(16), f3(17), f3(18), f3(19), f3(20))(l).([]int64)
+	}
+	panic("arity")
+}
+
 func main() {
 	seed, _ := strconv.ParseInt(os.Getenv("VERIF_SEED"), 10, 64)
 	per := 6
@@ -137,7 +200,7 @@ func main() {
 	enc := json.NewEncoder(os.Stdout)
 	for n := 2; n <= 20; n++ {
 		for k := 0; k < per; k++ {
-			for fam := 0; fam <= 2; fam++ {
+			for fam := 0; fam <= 3; fam++ {
 				c := Case{Arity: n, Fam: fam}
 				switch fam {
 				case 0:
@@ -156,6 +219,15 @@ func main() {
 					}
 					c.Input = []int64{x}
 					c.Observed = []int64{run01(n, fam, x)}
+				case 3:
+					// the nil interface value as argument (k even) or a one-element list
+					if k%2 == 0 {
+						c.Input = []int64{}
+						c.Observed = run3(n, nil)
+					} else {
+						c.Input = []int64{-7}
+						c.Observed = run3(n, []int64{-7})
+					}
 				case 2:
 					l := []int64{}
 					for j := 0; j < k%3; j++ {
